@@ -106,13 +106,17 @@ class Artifacts:
         sets["selfhost"] = [("eqlog.eql", os.path.join(REPO, "eqlog-eqlog", "src", "eqlog.eql"))]
         return sets
 
-    def enum_set(self, seed):
-        """Writes the enumerated rule batches (deterministic; `seed` only matters if a sample has to be taken)."""
+    def enum_set(self, seed, quick=False):
+        """Writes the enumerated rule batches. Thorough: the whole family (deterministic). Quick: one batch of 120 rules
+        sampled with `seed`."""
         from . import enumerator
-        d = os.path.join(self.dir, "enum_src")
+        d = os.path.join(self.dir, "enumq_src_%d" % seed if quick else "enum_src")
         info_path = os.path.join(d, "info.json")
         if not os.path.exists(info_path):
-            small, large, info = enumerator.select(seed, max_small=100000, sample_large=100000)
+            if quick:
+                small, large, info = enumerator.select(seed, max_small=60, sample_large=60)
+            else:
+                small, large, info = enumerator.select(seed, max_small=100000, sample_large=100000)
             rules = small + large
             paths = enumerator.write_batches(d, rules)
             info["rules"] = len(rules)
@@ -158,8 +162,12 @@ class Artifacts:
             with Lock("emit-%s.lock" % self.hash):
                 todo = [s for s in sets if not self._done("emit_" + s)]
                 all_sets = self.theory_sets()
+                seed = int(os.environ.get("VERIF_SEED", "0") or 0)
                 if "enum" in todo:
-                    all_sets["enum"], _info = self.enum_set(int(os.environ.get("VERIF_SEED", "0") or 0))
+                    all_sets["enum"], _info = self.enum_set(seed)
+                for s in todo:
+                    if s.startswith("enumq"):
+                        all_sets[s], _info = self.enum_set(seed, quick=True)
                 for s in todo:
                     outroot = os.path.join(self.dir, "emit")
                     shutil.rmtree(os.path.join(outroot, s), ignore_errors=True)
